@@ -347,9 +347,9 @@ func (h *harness) suiteSynthetic(n int) {
 }
 
 // regressions: witnesses of repaired defects, run before everything else.
-//  - malformed bytes whose type bytes are >= 0x80 made the fast codec's Skip index a table with a negative
-//    number: UnmarshalResponse/UnmarshalRequest must return an error (thriftgo then fails with a message)
-//  - (process level, see suiteProcess) garbled plugin output of that kind, and two -g with one -p
+//   - malformed bytes whose type bytes are >= 0x80 made the fast codec's Skip index a table with a negative
+//     number: UnmarshalResponse/UnmarshalRequest must return an error (thriftgo then fails with a message)
+//   - (process level, see suiteProcess) garbled plugin output of that kind, and two -g with one -p
 func (h *harness) regressions() {
 	for k, bs := range malformed {
 		for _, c := range []codec{h.resCodec(), h.reqCodec()} {
